@@ -215,7 +215,7 @@ func runCase(r *vk.Run, c Case) *vk.Fail {
 	return nil
 }
 
-const rule = "histories over a tree of contexts: root built by one of 6 constructors (NewContext, NewContextWith with user maps that do / do not pre-bind the built-in name 'len' or bind nil, NewContextWithContext over a context.Context holding a string key), then operations New(c) and Set(c,k,v) with keys {a,b,len} and values {1,2,nil}; after EVERY step every (context,key) pair is read with Value and Has and compared with a chain-of-maps reference model (nearest entry wins; Has <=> visible value non-nil; the built-in is injected into a new context iff the name yields nil there). (E) every history of length <= L (quick 3, thorough 4) over <= 4 contexts for every root; (R) random histories of up to 300 operations over unboundedly many contexts, all calls made through the hctx.Context interface. Non-trivial = the history contains a Set after a New; distinct by (root, history)."
+const rule = "histories over a tree of contexts: root built by one of 6 constructors (NewContext, NewContextWith with user maps that do / do not pre-bind the built-in name 'len' or bind nil, NewContextWithContext over a context.Context holding a string key), then operations New(c) and Set(c,k,v) with keys {a,b,len} and values {1,2,nil}; after EVERY step every (context,key) pair is read with Value and Has and compared with a chain-of-maps reference model (nearest entry wins; Has <=> visible value non-nil; the built-in is injected into a new context iff the name yields nil there). (E) every history of length <= L (quick 4, thorough 5) over <= 4 contexts for every root; (R) random histories of up to 300 operations over unboundedly many contexts, all calls made through the hctx.Context interface. Non-trivial = the history contains a Set after a New; distinct by (root, history)."
 
 func setup(t *testing.T) *vk.Run {
 	r := vk.Start(t, "C10", rule,
@@ -241,7 +241,7 @@ func TestProp(t *testing.T) {
 	defer r.Finish()
 	r.ReplayCommitted()
 
-	L := r.Pick(3, 4)
+	L := r.Pick(4, 5)
 	const maxCtx = 4
 	var leaves int64
 	var rec func(root int, ops []Op, nctx int)
